@@ -120,4 +120,31 @@ pub proof fn lemma_delta_b_big(l: int, d: int, up: bool)
             && (amount_specified_is_input || liquidity as int * Q() > amount as int * sqrt_price as int)),
         r matches Ok(v) ==> (amount_specified_is_input != a_to_b ==> liquidity != 0),
 //@ end
+
+/// liquidity affordable with x of token A between two prices: floor( floor(pu*pl*x / 2^64) / (pu - pl) )
+pub open spec fn est_liq_a(p0: int, p1: int, x: int) -> int { ((max_i(p0, p1) * min_i(p0, p1) * x) / Q()) / abs_diff(p0, p1) }
+/// liquidity affordable with x of token B: floor( x * 2^64 / (pu - pl) )
+pub open spec fn est_liq_b(p0: int, p1: int, x: int) -> int { (x * Q()) / abs_diff(p0, p1) }
+
+//@ fn math/token_math.rs est_liquidity_for_token_a -> r pub
+    requires price_ok(sqrt_price_0 as int), price_ok(sqrt_price_1 as int), sqrt_price_0 != sqrt_price_1,
+    ensures
+        est_liq_a(sqrt_price_0 as int, sqrt_price_1 as int, token_amount_a as int) <= U128MAX() ==> r == Ok::<u128, ErrorCode>(est_liq_a(sqrt_price_0 as int, sqrt_price_1 as int, token_amount_a as int) as u128),
+        est_liq_a(sqrt_price_0 as int, sqrt_price_1 as int, token_amount_a as int) > U128MAX() ==> r is Err,
+//@ inject before /let numerator_x128 = /
+    proof {
+        let pu = sqrt_price_upper as int; let pl = sqrt_price_lower as int; let x = token_amount_a as int;
+        assert(0 <= pu * pl <= MAX_PRICE() * MAX_PRICE()) by(nonlinear_arith) requires 0 <= pu <= MAX_PRICE(), 0 <= pl <= MAX_PRICE();
+        assert(0 <= (pu * pl) * x <= (MAX_PRICE() * MAX_PRICE()) * U64MAX()) by(nonlinear_arith) requires 0 <= pu * pl <= MAX_PRICE() * MAX_PRICE(), 0 <= x <= U64MAX();
+        assert((MAX_PRICE() * MAX_PRICE()) * U64MAX() < Q4()) by(compute);
+        assert(pu * pl * x == (pu * pl) * x);
+    }
+//@ end
+
+//@ fn math/token_math.rs est_liquidity_for_token_b -> r pub
+    requires price_ok(sqrt_price_0 as int), price_ok(sqrt_price_1 as int), sqrt_price_0 != sqrt_price_1,
+    ensures
+        est_liq_b(sqrt_price_0 as int, sqrt_price_1 as int, token_amount_b as int) <= U128MAX() ==> r == Ok::<u128, ErrorCode>(est_liq_b(sqrt_price_0 as int, sqrt_price_1 as int, token_amount_b as int) as u128),
+        est_liq_b(sqrt_price_0 as int, sqrt_price_1 as int, token_amount_b as int) > U128MAX() ==> r is Err,
+//@ end
 }
